@@ -82,16 +82,21 @@ class FakeSam:
         self.is_long_read = False
 
 
-def plant_phases(rng, gene, bag_variants, sites, per_copy=12, noise=0.0):
+def plant_phases(rng, gene, bag_variants, sites, per_copy=12, noise=0.0, majors=None):
     """Fragment phase records {name: {pos: op}} for haplotype copies carrying `bag_variants[k]`:
-    each fragment covers 1-4 neighbouring catalogued sites and shows the copy's allele there."""
-    sites = sorted(sites)
+    each fragment covers 1-4 neighbouring catalogued sites and shows the copy's allele there.
+    majors[k] = the copy's major allele: a fused copy yields no observation (not even a reference one) at a
+    site of a region it does not retain - its reads align to the pseudogene there."""
+    all_sites = sorted(sites)
     out = {}
-    if len(sites) < 2:
+    if len(all_sites) < 2:
         return out
     for k, vs in enumerate(bag_variants):
         by = {m.pos: m.op for m in vs}
+        sites = [p for p in all_sites if majors is None or gene.has_coverage(majors[k], p)]
         for f in range(per_copy):
+            if not sites:
+                break
             i = rng.randrange(len(sites))
             w = sites[i : i + rng.choice([1, 2, 2, 3, 4])]
             rec = {p: by.get(p, "_") for p in w}
